@@ -1,7 +1,6 @@
 package world
 
 import (
-	"os"
 	"bytes"
 	"context"
 	"encoding/base64"
@@ -10,6 +9,7 @@ import (
 	"fmt"
 	"io"
 	"net/http"
+	"os"
 	"runtime"
 	"sort"
 	"strconv"
